@@ -537,3 +537,80 @@ def thread_none_tests_repo(repo) -> int:
         if isinstance(f, FuncInfo) and f.outer is None:
             n += thread_none_tests_function(f.node)
     return n
+
+
+# --------------------------------------------------------------------------- C17
+def strip_inline_suffixes_function(fn) -> int:
+    """C17: the inliner renames a helper local ``x`` to ``x__N`` when the caller already has an ``x``.  Where the
+    caller's ``x`` is dead by then - every occurrence of ``x`` sits in a top-level statement BEFORE the first
+    one mentioning ``x__N`` (a trailing copy ``x = x__N`` excepted, and dropped) - the suffix is removed again,
+    so that two helpers spliced one after the other read like the code they were extracted from."""
+    import re
+
+    pat = re.compile(r"^(.+)__(\d+)$")
+    body = fn.body
+    params = {a.arg for a in fn.args.posonlyargs + fn.args.args + fn.args.kwonlyargs}
+    if fn.args.vararg:
+        params.add(fn.args.vararg.arg)
+    if fn.args.kwarg:
+        params.add(fn.args.kwarg.arg)
+    occ: dict[str, list[int]] = {}
+    for k, st in enumerate(body):
+        for n in ast.walk(st):
+            if isinstance(n, ast.Name):
+                occ.setdefault(n.id, []).append(k)
+            elif isinstance(n, ast.ExceptHandler) and n.name:
+                occ.setdefault(n.name, []).append(k)
+            elif isinstance(n, ast.arg):
+                occ.setdefault(n.arg, []).append(k)
+    done = 0
+    for nm in sorted(occ, key=lambda s_: (min(occ[s_]), s_)):
+        m = pat.match(nm)
+        if not m:
+            continue
+        base = m.group(1)
+        if base in params or pat.match(base):
+            continue
+        first = min(occ[nm])
+        base_occ = list(occ.get(base, []))
+        copy_idx = None
+        # trailing copy `base = nm`
+        for k in sorted(set(base_occ)):
+            st = body[k]
+            if k > first and isinstance(st, (ast.Assign, ast.AnnAssign)) and isinstance(getattr(st, "value", None), ast.Name) and st.value.id == nm:
+                tg = st.targets if isinstance(st, ast.Assign) else [st.target]
+                if len(tg) == 1 and isinstance(tg[0], ast.Name) and tg[0].id == base and max(occ[nm]) == k:
+                    copy_idx = k
+        rest = [k for k in base_occ if k != copy_idx]
+        if copy_idx is not None and base_occ.count(copy_idx) != 1:
+            continue
+        if any(k >= first and not (copy_idx is not None and k > copy_idx) for k in rest):
+            continue
+        # nested functions / lambdas that mention either name: leave alone
+        if any(isinstance(n, (ast.FunctionDef, ast.AsyncFunctionDef, ast.Lambda)) and any(isinstance(x, ast.Name) and x.id in (nm, base) for x in ast.walk(n)) for st in body for n in ast.walk(st)):
+            continue
+        for st in body:
+            for n in ast.walk(st):
+                if isinstance(n, ast.Name) and n.id == nm:
+                    n.id = base
+                elif isinstance(n, ast.ExceptHandler) and n.name == nm:
+                    n.name = base
+        if copy_idx is not None:
+            body[copy_idx]._drop = True  # type: ignore[attr-defined]
+        occ.setdefault(base, []).extend(k for k in occ[nm] if k != copy_idx)
+        if copy_idx is not None:
+            occ[base] = [k for k in occ[base] if k != copy_idx]
+        occ[nm] = []
+        done += 1
+    if done:
+        fn.body = [st for st in body if not getattr(st, "_drop", False)] or [ast.Pass()]
+        _refresh(fn)
+    return done
+
+
+def strip_inline_suffixes_repo(repo) -> int:
+    n = 0
+    for f in list(repo.funcs.values()):
+        if isinstance(f, FuncInfo) and f.outer is None and getattr(f, "inlined", None):
+            n += strip_inline_suffixes_function(f.node)
+    return n
